@@ -349,11 +349,144 @@ def _one_param_rewrite(ctx: Ctx, fn: FuncInfo, top: ObjV, bot: ObjV, st0: State,
         return unres("R12b", fn.qualname, inst, "path limit", fn.loc)
 
 
+# ------------------------------------------------------------------------------- shatter rules (tensor-dot)
+KRON_PARAM = "cirkit.backend.torch.parameters.nodes.TorchKroneckerParameter"
+
+
+def _split_pairs(sig: frozenset) -> frozenset:
+    """a pairing of two layouts of equal length is the same as the atom-wise pairings"""
+    out = set()
+    for item in sig:
+        if item[0] == "pair" and len(item[1]) == 2:
+            a, b = item[1]
+            la = [x.strip() for x in a.strip("[]").split(",")]
+            lb = [x.strip() for x in b.strip("[]").split(",")]
+            if len(la) == len(lb) and len(la) > 1:
+                for x, y in zip(la, lb):
+                    out.add(("pair", tuple(sorted((f"[{x}]", f"[{y}]")))))
+                continue
+        out.add(item)
+    return frozenset(out)
+
+
+def shatter_rewrites(ctx: Ctx) -> list[Ob]:
+    """the two tensor-dot rules: a layer whose weight is a Kronecker product A (x) B of two parameters
+    is replaced by two tensor-dot layers with weights A and B.  Both sides are interpreted on an input
+    whose unit axis is laid out [u1 (a1 units), u2 (b1 units)]: same output layout
+    [<A#0>, <B#0>], same pairings u1 <-> <A#1>, u2 <-> <B#1>."""
+    repo = ctx.repo
+    obs: list[Ob] = []
+    a0, a1, b0, b1 = (Dim.sym(s) for s in ("a0", "a1", "b0", "b1"))
+    for pc, fn in _registry(ctx, OPT_LAYERS, "DEFAULT_LAYER_SHATTER_OPT_RULES"):
+        entries = _pattern_entries(ctx, pc)
+        if entries is None or len(entries) != 1:
+            obs.append(unres("R12b", fn.qualname, "setup", f"pattern {pc.name}: not a single-entry pattern", fn.loc))
+            continue
+        top_c = entries[0]
+        inst = "rewrite[kronecker weight]"
+        it = Interp(repo)
+        it.pairings = []  # type: ignore[attr-defined]
+        st = State()
+        try:
+            kc = repo.cls(KRON_PARAM)
+            kinit = repo.lookup(kc, "__init__")
+            assert kinit is not None
+            sA = TupleV((IntV(a0), IntV(a1)))
+            sB = TupleV((IntV(b0), IntV(b1)))
+            kb = list(it.construct(ClassV(kc), [], {"in_shape1": sA, "in_shape2": sB, "num_folds": mkint(1)}, st, Frame(kinit, 0)))
+            if not kb:
+                obs.append(unres("R12b", fn.qualname, inst, "Kronecker parameter not constructed", fn.loc))
+                continue
+            knode, s1 = kb[0]
+            pA = new_param(s1, "A", sA, Dim.const(1))
+            pB = new_param(s1, "B", sB, Dim.const(1))
+            # weight = TorchParameter.from_binary(kron, A, B), through the model of the class
+            from ..tensor_ops import model_op
+
+            ws = list(model_op(it, "TorchParameter.from_binary", None, [knode, pA, pB], {}, s1, Frame(fn, 0), fn.node))
+            if not ws or not isinstance(ws[0][0], ParamV):
+                obs.append(unres("R12b", fn.qualname, inst, "Kronecker weight not composed", fn.loc))
+                continue
+            weight, s2 = ws[0]
+            # the matched layer
+            choice = {k: v for k, v in next(iter(r4._layer_choices(ctx, top_c)))[1].items()}
+            choice["num_input_units"] = lambda st_: IntV(a1 * b1)
+            choice["num_output_units"] = lambda st_: IntV(a0 * b0)
+            if "arity" in choice:
+                choice["arity"] = lambda st_: mkint(1)
+            if "num_folds" in choice:
+                choice["num_folds"] = lambda st_: mkint(1)
+            choice["weight"] = lambda st_, w=weight: w
+            tops = list(r4._build_layer(ctx, it, top_c, s2, choice))
+            if not tops:
+                obs.append(unres("R12b", fn.qualname, inst, f"{top_c.name} with a Kronecker weight not constructed", fn.loc))
+                continue
+            top, s3 = tops[0]
+            x = TensorV((Dim.const(1), Dim.const(1), B, a1 * b1), "float", ((), (), (("B", B),), (("u1", a1), ("u2", b1))))
+            it.pairings = []  # type: ignore[attr-defined]
+            r1 = [(v, s) for v, s in _fwd(ctx, it, top, x, s3.copy()) if isinstance(v, TensorV)]
+            if len(r1) != 1:
+                obs.append(unres("R12b", fn.qualname, inst, "matched layer forward did not resolve", fn.loc))
+                continue
+            y, s4 = r1[0]
+            sig_o, _ = _signature(it.pairings, s4)  # type: ignore[attr-defined]
+            # the match: entries = [top], sub_entries = [{"weight": [match(entries=[kron node])]}]
+            it2 = Interp(repo)
+            it2.pairings = []  # type: ignore[attr-defined]
+            s5 = s3.copy()
+            comp = _compiler(ctx, s5)
+            sub = _match(ctx, it2, s5, [knode])
+            if not sub:
+                obs.append(unres("R12b", fn.qualname, inst, "sub-match not constructed", fn.loc))
+                continue
+            subm, s6 = sub[0]
+            from ..shapes import DictV, StrV
+
+            mc = repo.cls(MATCH)
+            minit = repo.lookup(mc, "__init__")
+            assert minit is not None
+            ms = list(it2.construct(ClassV(mc), [Unknown("pattern"), TupleV((top,), "list"), TupleV((DictV(((StrV("weight"), TupleV((subm,), "list")),)),), "list")], {}, s6, Frame(minit, 0)))
+            if not ms:
+                obs.append(unres("R12b", fn.qualname, inst, "match object not constructed", fn.loc))
+                continue
+            mv, s7 = ms[0]
+            news = list(it2.call(fn, [comp, mv], {}, s7))
+            if not news:
+                obs.append(viol("R12b", fn.qualname, inst, "the rule (or a tensor-dot constructor) refuses a layer its own pattern matches", fn.loc))
+                continue
+            nv, s8 = news[0]
+            mods = list(nv.items) if isinstance(nv, TupleV) else [nv]
+            if not mods or any(not isinstance(m, ObjV) for m in mods):
+                obs.append(unres("R12b", fn.qualname, inst, f"rewritten modules not resolved: {nv!r}", fn.loc))
+                continue
+            it2.pairings = []  # type: ignore[attr-defined]
+            cur: V = x
+            okk = True
+            for k, m in enumerate(mods):
+                rs = [(v, s) for v, s in _fwd(ctx, it2, m, cur, s8) if isinstance(v, TensorV)]  # type: ignore[arg-type]
+                if len(rs) != 1:
+                    obs.append(unres("R12b", fn.qualname, inst, f"forward of rewritten module {k} did not resolve", fn.loc))
+                    okk = False
+                    break
+                cur, s8 = rs[0]
+                if k + 1 < len(mods):
+                    cur = _stack_input(cur)  # type: ignore[arg-type]
+            if not okk:
+                continue
+            sig_n, _ = _signature(it2.pairings, s8)  # type: ignore[attr-defined]
+            obs.append(_cmp(fn.qualname, inst, fn.loc, y, cur, s8, _split_pairs(sig_o), _split_pairs(sig_n)))
+        except ShapeError as e:
+            obs.append(viol("R12b", fn.qualname, inst, f"{e.msg} [{e.where}]", fn.loc))
+        except (PathLimit, RecursionError):
+            obs.append(unres("R12b", fn.qualname, inst, "path limit", fn.loc))
+    return obs
+
+
 if __name__ == "__main__":
     import sys
 
     roots = [a for a in sys.argv[1:] if not a.startswith("-")]
     cx = Ctx(roots[0] if roots else None)
-    for o in layer_rewrites(cx) + param_rewrites(cx):
+    for o in layer_rewrites(cx) + param_rewrites(cx) + shatter_rewrites(cx):
         if o.status != "ok" or "-v" in sys.argv:
             print(o.status.upper(), o.line()[:400])
